@@ -25,6 +25,41 @@ def gen_cases(rng, tier):
             h += ['r0,%d' % k]
         h += ['t%d' % rng.choice([3, 40, 400])]
         cases.append({'id': 'c08-conc-%d' % i, 'cfg': cfg, 'hist': h, 'sub': 'lsim', 'tags': {'mode': 'concurrent'}})
+    # a macro pushed out of the 4-slot ring while it is inside a held group (modifier prefix, nested groups, delays inside):
+    # whatever it still holds must be released (layout level and kanata level)
+    GROUPS = ['S-(x 100 y)', 'C-(a 50 S-(b 50 c))', 'A-(z 200)', 'S-(30 x 30 C-(y 30))', 'lsft 100 a', 'S-(x y z 60 b)', 'C-S-(n 80 m)']
+    for i in range(40 if tier == 'quick' else 800):
+        src = gen.SRC_POOL[:7]
+        acts = ['(%s %s %s)' % (rng.choice(['macro', 'macro', 'macro-release-cancel']), rng.choice(['', 'b', '5']), rng.choice(GROUPS)) for _ in range(6)]
+        acts.append('y')
+        cfg = '(defsrc %s)\n(deflayer l0 %s)' % (' '.join(src), ' '.join(acts))
+        codes = [gen.KEYCODES[k] for k in src]
+        order = rng.sample(codes[:6], rng.choice([5, 5, 6, 6, 4]))
+        ks = rng.random() < 0.5
+        h = []
+        for k in order:
+            h += [('d%d' if ks else 'p0,%d') % k, 't%d' % rng.choice([0, 1, 2, 4, 9])]
+        h += ['t%d' % rng.choice([1, 20, 150])]
+        for k in order:
+            h += [('u%d' if ks else 'r0,%d') % k]
+        h += ['t900'] + (['q'] if ks else [])
+        cases.append({'id': 'c08-evict-%d' % i, 'cfg': cfg, 'hist': h, 'sub': 'ksim' if ks else 'lsim', 'settled': True,
+                      'tags': {'mode': 'evicted-in-group'}})
+    # a cancellable macro with press/release action items (mouse buttons, unmod keys) cancelled at every millisecond of its run
+    for i in range(14 if tier == 'quick' else 300):
+        body = rng.choice(['mlft', 'x mlft y', '(unmod z) 3 mrgt', 'mlft mrgt', 'b (unmod a) n', 'mmid 2 mmid', 'x (unshift c) y'])
+        variant = rng.choice(['macro-cancel-on-press', 'macro-release-cancel-and-cancel-on-press', 'macro-repeat-cancel-on-press',
+                              'macro-cancel-on-press', 'macro-release-cancel', 'macro-repeat-release-cancel'])
+        cfg = '(defsrc a s d)\n(deflayer l0 (%s %s) k l)' % (variant, body)
+        by_press = 'cancel-on-press' in variant and rng.random() < 0.8
+        for off in range(0, 11):        # every millisecond of the macro's run
+            if by_press:
+                h = ['d30', 't%d' % off, 'd31', 't3', 'u31', 't2', 'u30']
+            else:
+                h = ['d30', 't%d' % off, 'u30']
+            h += ['t300', 'q']
+            cases.append({'id': 'c08-cwin-%d-%d' % (i, off), 'cfg': cfg, 'hist': h, 'sub': 'ksim', 'settled': True,
+                          'tags': {'mode': 'cancel-with-action-items', 'offset': off}})
     # kanata-level cancel paths (release-cancel, cancel-on-press and their window, repeat variants), macros started
     # without a physical press (virtual key tapped on release, hold action of a tap-hold)
     for i in range(160 if tier == 'quick' else 4000):
@@ -73,8 +108,42 @@ def gen_cases(rng, tier):
     return cases
 
 
+def oracle(c, it):
+    """when the macro has finished or was cancelled and every physical key is up, every key and button it pressed is released"""
+    if not c.get('settled') or not it or it[0].startswith('PARSE-') or any(l.startswith(('PANIC', 'ABORT', 'HANG')) for l in it):
+        return None
+    if any(l.startswith('INFO lostcr=') and not l.startswith('INFO lostcr=0') for l in it):
+        return None     # two custom releases in one tick: finding custom-release-lost (recorded under C01)
+    if c['sub'] == 'lsim':
+        last = [l for l in it if l.startswith('@') and ' K' in l]
+        if last:
+            keys = last[-1].split(' K', 1)[1].split(' C ')[0].split()
+            if keys:
+                return 'all keys released and 900 quiet ticks later the layout still holds keys %s' % keys
+        return None
+    down, btn = [], []
+    for l in it:
+        if l.startswith('@'):
+            for ev in l.split(' ')[1:]:
+                if len(ev) > 1 and ev[0] in 'du' and ev[1:].isdigit():
+                    k = int(ev[1:])
+                    if ev[0] == 'd' and k not in down:
+                        down.append(k)
+                    elif ev[0] == 'u' and k in down:
+                        down.remove(k)
+                elif len(ev) == 3 and ev[0] == 'b' and ev[1] in 'du':
+                    if ev[1] == 'd' and ev[2] not in btn:
+                        btn.append(ev[2])
+                    elif ev[1] == 'u' and ev[2] in btn:
+                        btn.remove(ev[2])
+    if down or btn:
+        return 'macro finished / cancelled and every physical key up, yet keys %s buttons %s stay pressed at the OS' % (down, btn)
+    return None
+
+
 SPEC = {
+    'oracle': oracle,
     'id': 'C08', 'sub': 'lsim', 'gen_cases': gen_cases, 'nontrivial': trace_has_output,
-    'rule': 'random macro bodies (keys, delays, modifier-prefixed groups, nested groups) in every macro variant x histories activating them once, repeatedly, overlapping, >4 concurrently' + '; non-trivial = distinct (config, trace) with output',
+    'rule': 'random macro bodies (keys, delays, modifier-prefixed groups, nested groups) in every macro variant x histories activating them once, repeatedly, overlapping, >4 concurrently (incl. eviction inside held groups), cancellation of macros with press/release action items at every millisecond' + '; non-trivial = distinct (config, trace) with output',
     'explanation': 'theorems: delay read/countdown, press/release steps, one step per tick, cancel paths clear every macro-held key, repeat only while held',
 }
